@@ -403,6 +403,94 @@ Fixpoint mon_stopped (cfg : config) (evs : list event) (prev script : list rstep
   | _, _ => true
   end.
 
+(* "Namespaces and CRDs appearing start the corresponding watches" -- the dual of
+   [mon_stopped], for the objects whose watch is gated by a watched Namespace
+   (namespace scope) or by the watched CRD of their kind, which [steady] leaves
+   out: a mutation of a watched object issued while its gate is open -- the
+   Namespace object was not deleted last, and the kind is served: built in, or the
+   watched CRD's latest version defines it -- must be reported in the window of
+   that step by exactly one event carrying the status of the new version
+   (NotFound for the delete of an existing object).  Decided from the script alone.
+   Scripts with watch gaps are left to [expected_statuses] (a re-list step with a
+   refused re-watch stands for several model steps, so the marks no longer align). *)
+Definition crdobj0 := mkOid GK_CRD 0 1.
+
+Fixpoint crd_state (prev : list rstep) (acc : option (option nat)) : option (option nat) :=
+  match prev with
+  | [] => acc
+  | SMut (MAdd k p) :: t | SMut (MUpdate k p) :: t =>
+      crd_state t (if oid_eqb k crdobj0 then Some (p_defines p) else acc)
+  | SMut (MDelete k) :: t => crd_state t (if oid_eqb k crdobj0 then None else acc)
+  | _ :: t => crd_state t acc
+  end.
+
+Definition crd_state0 (pre : list (oid * payload)) : option (option nat) :=
+  match lookup (cluster_of pre) crdobj0 with Some p => Some (p_defines p) | None => None end.
+
+Fixpoint exists_now (prev : list rstep) (id : oid) (acc : bool) : bool :=
+  match prev with
+  | [] => acc
+  | SMut (MAdd k _) :: t | SMut (MUpdate k _) :: t => exists_now t id (if oid_eqb k id then true else acc)
+  | SMut (MDelete k) :: t => exists_now t id (if oid_eqb k id then false else acc)
+  | _ :: t => exists_now t id acc
+  end.
+
+Definition gate_open (c : rcase) (prev : list rstep) (id : oid) : bool :=
+  let cfg := rc_cfg c in
+  negb (watch_stopped cfg prev id) &&
+  (existsb (Nat.eqb (o_gk id)) (c_builtin cfg) ||
+   (omem crdobj0 (c_watched cfg) &&
+    match crd_state prev (crd_state0 (rc_pre c)) with
+    | Some (Some g) => Nat.eqb g (o_gk id)
+    | _ => false
+    end)).
+
+Definition has_break (steps : list rstep) : bool :=
+  existsb (fun s => match s with SBreak _ => true | _ => false end) steps.
+
+Fixpoint mon_started (c : rcase) (evs : list event) (prev script : list rstep) (marks : list nat) : bool :=
+  match script, marks with
+  | SCancel :: _, _ | SFail :: _, _ => true
+  | s :: script', a :: marks' =>
+      let b := match marks' with b :: _ => b | [] => List.length evs end in
+      (match s with
+       | SMut m =>
+           let id := mut_id m in
+           if negb (is_ns id) && negb (is_crd id) && omem id (c_watched (rc_cfg c)) && gate_open c prev id
+           then match m with
+                | MAdd _ p | MUpdate _ p =>
+                    p_slow p || list_eqb status_eqb (statuses_for id (window evs a b)) [p_status p]
+                | MDelete _ =>
+                    negb (exists_now prev id (match lookup (cluster_of (rc_pre c)) id with Some _ => true | None => false end))
+                    || list_eqb status_eqb (statuses_for id (window evs a b)) [SNotFound]
+                end
+           else true
+       | _ => true
+       end) && mon_started c evs (prev ++ [s]) script' marks'
+  | _, _ => true
+  end.
+
+(* The one error event reports the FATAL failure, not an earlier benign
+   cancellation: no error event has been received when the step that triggers the
+   failure (the one right before the script's [SFail]) begins. *)
+Fixpoint fail_pos (steps : list rstep) (n : nat) : option nat :=
+  match steps with
+  | [] => None
+  | SFail :: _ => Some n
+  | _ :: t => fail_pos t (S n)
+  end.
+
+Definition error_not_early (c : rcase) : bool :=
+  has_break (rc_steps c) ||
+  match fail_pos (drop_to_sync (rc_steps c)) 0 with
+  | Some (S k) =>
+      match nth_error (rc_marks c) k with
+      | Some a => Nat.eqb (count_errors (firstn a (rc_events c))) 0
+      | None => true
+      end
+  | _ => true
+  end.
+
 Definition reporter_monitor (c : rcase) : bool :=
   let cfg := rc_cfg c in
   let evs := rc_events c in
@@ -415,11 +503,13 @@ Definition reporter_monitor (c : rcase) : bool :=
     (* a fatal failure happened: exactly one error event is reported and the
        watcher stops by itself, whatever benign cancellations came before; no
        sync event if the failure precedes the sync *)
-    Nat.eqb (count_errors evs) 1 && rc_selfclosed c &&
+    Nat.eqb (count_errors evs) 1 && rc_selfclosed c && error_not_early c &&
     (negb (fail_before_sync (rc_steps c)) || Nat.eqb (count_syncs evs) 0)
   else
     Nat.eqb (count_errors evs) 0 && Nat.eqb (count_syncs evs) 1 &&
     mon_stopped cfg evs [] (drop_to_sync (rc_steps c)) (rc_marks c) &&
+    (has_break (rc_steps c) ||
+     mon_started c (firstn (rc_tick c) evs) [] (drop_to_sync (rc_steps c)) (rc_marks c)) &&
     (* one event per version, the last one being the final state *)
     forallb (fun id => negb (steady c id) ||
                        list_eqb status_eqb (statuses_for id evs)
